@@ -308,9 +308,11 @@ def _run_history(case):
         # LoG/DoG pickers are parameterised per scale here (a fresh object per call): the state is the module-level memo only
         pass
     res = history.explore(make, ops, case["depth"], atol=1e-6, rtol=0)
-    if res["raises_alone"]:
-        raise RuntimeError(f"harness: {res['raises_alone']} raise on a fresh picker")
     viol, seen = [], set()
+    for n_ in res["raises_alone"]:
+        viol.append((f"{ID}|{pk}|history|raises-on-a-fresh-picker", f"{n_} raised {res['raises_alone_msg'][n_]}"))
+    if res["raises_alone"]:
+        return {"nontrivial": True, "outcome": f"history|{pk}|viol", "viol": viol}
     # the solo answers themselves: one pick per particle at the planted sites, with the planted rotation
     for name, fn in ops:
         history.reset_memo_caches()
